@@ -6724,16 +6724,16 @@ bool SoPlexBase<R>::setSettings(const Settings& newSettings, const bool init)
 
    bool success = true;
 
-   *_currentSettings = newSettings;
-
+   // the new values must not be stored before the setters run: the setters compare with the current values (and skip
+   // the call if they are equal) and derive the state of the solver components from the transition
    for(int i = 0; i < SoPlexBase<R>::BOOLPARAM_COUNT; i++)
-      success &= setBoolParam((BoolParam)i, _currentSettings->_boolParamValues[i], init);
+      success &= setBoolParam((BoolParam)i, newSettings._boolParamValues[i], init);
 
    for(int i = 0; i < SoPlexBase<R>::INTPARAM_COUNT; i++)
-      success &= setIntParam((IntParam)i, _currentSettings->_intParamValues[i], init);
+      success &= setIntParam((IntParam)i, newSettings._intParamValues[i], init);
 
    for(int i = 0; i < SoPlexBase<R>::REALPARAM_COUNT; i++)
-      success &= setRealParam((RealParam)i, _currentSettings->_realParamValues[i], init);
+      success &= setRealParam((RealParam)i, newSettings._realParamValues[i], init);
 
 #ifdef SOPLEX_WITH_RATIONALPARAM
 
